@@ -209,6 +209,13 @@ pub fn build_req(id: u32, method: String, path: String, version: &str, mut extra
     if let Some(c) = connection {
         let at = (ins + (mask as usize >> 12)) % (extra.len() + 1);
         extra.insert(at, Hdr { name: case_variant("Connection", mask >> 5), pre: " ".into(), value: c, post: String::new() });
+        // now and then the header is repeated further down with another value: the first line counts,
+        // wherever the library looks
+        if (mask >> 21) % 8 == 0 {
+            let v = ["upgrade", "close", "keep-alive", "Upgrade, close"][(mask as usize >> 24) % 4];
+            let at2 = at + 1 + (mask as usize >> 26) % (extra.len() - at);
+            extra.insert(at2, Hdr::new("Connection", v));
+        }
     }
     // a TE header now and then: the response coding then follows the request (HTTP/1.1 only matters)
     if (mask >> 13) % 8 == 0 && !extra.iter().any(|h| h.name.eq_ignore_ascii_case("te")) {
